@@ -53,7 +53,7 @@ Proof.
   - same_ro. same_ro.
     destruct (child _ _ _); [apply (atomic_of_total same); total_tac
                             | apply (atomic_of_readonly same same_refl); readonly_tac].
-  - same_ro. same_ro. same_ro. same_ro. same_ro. apply (atomic_of_total same). total_tac.
+  - same_ro. same_ro. same_ro. same_ro. same_ro. same_ro. same_ro. apply (atomic_of_total same). total_tac.
   - apply (atomic_of_readonly same same_refl). readonly_tac.
   - same_ro. same_ro. same_ro. apply (atomic_of_total same). total_tac.
   - apply (atomic_of_readonly same same_refl). readonly_tac.
@@ -69,7 +69,7 @@ Qed.
    call removes what it had started) *)
 Lemma atomic_api_create_feature th dh l now : atomic same (api_create_feature th dh l now).
 Proof.
-  unfold api_create_feature. same_ro. same_ro. same_ro. same_ro. same_ro. same_ro.
+  unfold api_create_feature. same_ro. same_ro. same_ro. same_ro. same_ro. same_ro. same_ro.
   apply (atomic_of_total same). total_tac.
 Qed.
 
